@@ -131,12 +131,22 @@ def load_check(pid: str):
 def worker_main(pid: str, shard_file: str, out_file: str) -> int:
     mod = load_check(pid)
     desc = json.loads(Path(shard_file).read_text())
-    try:
-        acc = mod.run_shard(desc)
-        from . import logmode
+    from . import logmode
 
-        logmode.report(acc)
-        out = acc.to_json()
+    try:
+        if isinstance(desc, dict) and "__coresident__" in desc:
+            # several shards one after the other in ONE process: state kept at class / module level
+            # by the code under test (caches, lazily filled tables) carries over from one to the next
+            outs = []
+            for d in desc["__coresident__"]:
+                acc = mod.run_shard(d)
+                acc.hit("coresident_shards")
+                outs.append(acc.to_json())
+            out = {"multi": outs}
+        else:
+            acc = mod.run_shard(desc)
+            logmode.report(acc)
+            out = acc.to_json()
     except BaseException:  # noqa: BLE001 - a crashed shard is inconclusive, say why
         out = {"crash": traceback.format_exc()}
     Path(out_file).write_text(json.dumps(jsonable(out)))
@@ -183,6 +193,27 @@ def run_check(pid: str, tier: str, seed: int) -> int:
     for i, d in enumerate(shards):
         if isinstance(d, dict) and "debuglog" not in d and every:
             d["debuglog"] = (i % every) == every - 1
+    # co-resident shards (see worker_main): pairs of shards of different protocol versions run in one
+    # process, in both orders; a check may choose the pairs itself (CORESIDENT(shards) -> [[i, j], ...])
+    pairs = []
+    if hasattr(mod, "CORESIDENT"):
+        pairs = mod.CORESIDENT(shards)
+    else:
+        byv = {}
+        for i, d in enumerate(shards):
+            if isinstance(d, dict) and isinstance(d.get("version"), int):
+                byv.setdefault(d["version"], i)
+        vs = sorted(byv)
+        if len(vs) >= 2:
+            cand = [(vs[-1], vs[-2]), (vs[-2], vs[-1]), (vs[0], vs[-1]), (vs[-1], vs[0])]
+            seen = set()
+            for a, b in cand:
+                if (a, b) not in seen and a != b:
+                    seen.add((a, b))
+                    pairs.append([byv[a], byv[b]])
+    n_plain = len(shards)
+    for ij in pairs:
+        shards.append({"__coresident__": [dict(shards[k], debuglog=False) for k in ij]})
     scratch = Path(os.environ.get("VERIF_SCRATCH", f"/dev/shm/rtmon-{os.getpid()}"))
     scratch.mkdir(parents=True, exist_ok=True)
     env = dict(os.environ)
@@ -236,6 +267,10 @@ def run_check(pid: str, tier: str, seed: int) -> int:
             out = json.loads(of.read_text())
             if "crash" in out:
                 inconclusive.append(f"shard {i} crashed: {out['crash'][-1500:]}")
+                continue
+            if "multi" in out:
+                for k, o in enumerate(out["multi"]):
+                    results[i + (k + 1) / 100.0] = o
                 continue
             results[i] = out
 
@@ -314,7 +349,7 @@ def run_check(pid: str, tier: str, seed: int) -> int:
             "contract_evaluations": dict(contract),
             "skipped_unspecified": dict(skipped),
             "shards": len(shards),
-            "shards_completed": len(results),
+            "shards_completed": len({int(k) for k in results}),
             "known_findings_hit": known_hit,
             "notes": notes[:20],
         },
@@ -336,7 +371,7 @@ def run_check(pid: str, tier: str, seed: int) -> int:
     scratch.rmdir()
 
     print(
-        f"[{pid}] tier={tier} seed={seed} shards={len(results)}/{len(shards)} "
+        f"[{pid}] tier={tier} seed={seed} shards={len({int(k) for k in results})}/{len(shards)} "
         f"evaluations={evaluations} distinct_nontrivial={len(sigs)} "
         f"violations={vcount} wall={wall:.1f}s"
     )
